@@ -70,7 +70,11 @@ def replay(recs):
             elif t == "rotation3":
                 c, s, h = r["a"]
                 ang = math.atan2(s, c)
-                for name, axis in (("axis", g.Point(*r["u"])), ("axis-scaled", g.Point(np.array([2 * x for x in r["u"]] + [2])))):
+                # the same direction given by a long vector stored in a narrow integer type (its squared length does not fit)
+                long_axes = [(f"axis-long-{np.dtype(dt).name}", g.Point(np.array([k * x for x in r["u"]] + [1], dtype=dt)))
+                             for dt, k in ((np.int16, 120), (np.int32, 30000), (np.int64, 2_000_000_000), (np.uint16, 200))
+                             if not (np.issubdtype(dt, np.unsignedinteger) and min(r["u"]) < 0)]
+                for name, axis in [("axis", g.Point(*r["u"])), ("axis-scaled", g.Point(np.array([2 * x for x in r["u"]] + [2])))] + long_axes:
                     tr = g.rotation(ang, axis=axis)
                     mp, mm = mclass(tr, r["Mp"]), mclass(tr, r["Mm"])
                     if not (mp or mm):
